@@ -4,7 +4,7 @@
 From PS Require Import Base Str Sim Program Isa Loader TextSpec C13_proof.
 
 Theorem C13_loader :
-  forall d d', recased d d' -> load_proc_desc d = load_proc_desc d'.
+  forall d d', recased d d' -> load_res_ci (load_proc_desc d) (load_proc_desc d').
 Proof. exact C13_loader_lemma. Qed.
 Print Assumptions C13_loader.
 
@@ -12,7 +12,7 @@ Print Assumptions C13_loader.
 Theorem C13_isa :
   forall spec spec' caps,
     Forall2 (fun e e' => fst e = fst e' /\ ci (snd e) (snd e')) spec spec' ->
-    load_isa spec caps = load_isa spec' caps.
+    isa_res_ci (load_isa spec caps) (load_isa spec' caps).
 Proof. exact C13_isa_lemma. Qed.
 Print Assumptions C13_isa.
 
@@ -64,3 +64,13 @@ Theorem C13_first_spelling :
        exists pre x post, flat_map d_caps (d_units d) = pre ++ x :: post /\ c = x /\ ~ (exists y, In y pre /\ ci y x)).
 Proof. exact C13_first_spelling_lemma. Qed.
 Print Assumptions C13_first_spelling.
+
+Theorem C13_loader_exact : forall d d', recased d d' -> edges_wf d -> load_proc_desc d = load_proc_desc d'.
+Proof. exact C13_loader_exact_lemma. Qed.
+Print Assumptions C13_loader_exact.
+Theorem C13_isa_exact : forall spec spec' caps,
+    Forall2 (fun e e' => fst e = fst e' /\ ci (snd e) (snd e')) spec spec' ->
+    (forall e, In e spec -> mem_ic (snd e) caps = true) ->
+    load_isa spec caps = load_isa spec' caps.
+Proof. exact C13_isa_exact_lemma. Qed.
+Print Assumptions C13_isa_exact.
